@@ -80,4 +80,8 @@ Definition oracle1 (obs : list (list N)) : bool :=
   | st :: m :: d :: _ => if bytes_eqb st [0] then bytes_eqb m d else true
   | _ => true
   end.
-Definition oracle (ops : list dop) (obs : list (list (list N))) : bool := forallb oracle1 obs.
+(* ... and every request has the outcome and leaves the tree the reference model (Srv/News.v) says: a post into an
+   existing category is accepted and stored with a fresh ID, its parent and its predecessor link; nothing else moves *)
+Definition effect_ok (m o : list (list N)) : bool := bytes_match (nth 0 m []) (nth 0 o []) && bytes_match (nth 1 m []) (nth 1 o []).
+Definition oracle (ops : list dop) (obs : list (list (list N))) : bool :=
+  forallb oracle1 obs && list_eqb effect_ok (model ops) obs.
